@@ -1,1 +1,159 @@
 //! Verification wrappers for this component (data-only re-exports of crate-private items).
+//!
+//! `Tree::verif_vlog_pointers` is a read-only walk: every entry of every live
+//! table (and of the versioned index, when there is one) is decoded as a
+//! `ValueLocation`; what it finds is returned as plain data next to the value
+//! log's own bookkeeping and the directory listing. Nothing is modified and no
+//! value is resolved (the block cache and the handle cache stay as they are).
+
+use std::sync::atomic::Ordering;
+
+use crate::error::Result;
+use crate::lsm::Tree;
+use crate::vlog::{ValueLocation, ValuePointer};
+use crate::{InternalKey, LSMIterator};
+
+/// One entry of a live table / of the versioned index.
+#[derive(Debug, Clone)]
+pub struct EntryInfo {
+	/// table id; 0 for entries of the versioned index
+	pub table_id: u64,
+	pub level: u8,
+	pub user_key: Vec<u8>,
+	pub seq: u64,
+	/// `InternalKeyKind as u8`
+	pub kind: u8,
+	pub timestamp: u64,
+	/// true: the value lives in the value log at (file_id, offset)
+	pub pointer: bool,
+	pub file_id: u32,
+	pub offset: u64,
+	pub key_size: u32,
+	/// separated: size recorded in the pointer; inline: length of the inline value
+	pub value_size: u32,
+	pub checksum: u32,
+}
+
+/// A live table and the property the clean-up rule reads.
+#[derive(Debug, Clone)]
+pub struct VlogTableInfo {
+	pub id: u64,
+	pub level: u8,
+	pub oldest_vlog_file_id: u64,
+}
+
+#[derive(Debug, Clone, Default)]
+pub struct VlogWalk {
+	pub enabled: bool,
+	pub tables: Vec<VlogTableInfo>,
+	pub entries: Vec<EntryInfo>,
+	pub index_entries: Vec<EntryInfo>,
+	/// `LevelManifest::min_oldest_vlog_file_id` right now
+	pub min_oldest: u32,
+	/// (file id, length) of every value-log file in the directory
+	pub dir_files: Vec<(u32, u64)>,
+	/// names in the value-log directory that are not value-log files
+	pub dir_other: Vec<String>,
+	pub handles: Vec<u32>,
+	pub active_writer_id: u32,
+	pub next_file_id: u32,
+	/// offset at which the active writer appends next (0 without a writer)
+	pub writer_offset: u64,
+}
+
+fn entry_info(table_id: u64, level: u8, ikey: &InternalKey, raw: &[u8]) -> EntryInfo {
+	let mut e = EntryInfo {
+		table_id,
+		level,
+		user_key: ikey.user_key.clone(),
+		seq: ikey.seq_num(),
+		kind: ikey.kind() as u8,
+		timestamp: ikey.timestamp,
+		pointer: false,
+		file_id: 0,
+		offset: 0,
+		key_size: 0,
+		value_size: 0,
+		checksum: 0,
+	};
+	if let Ok(loc) = ValueLocation::decode(raw) {
+		if loc.is_value_pointer() {
+			if let Ok(p) = ValuePointer::decode(&loc.value) {
+				e.pointer = true;
+				e.file_id = p.file_id;
+				e.offset = p.offset;
+				e.key_size = p.key_size;
+				e.value_size = p.value_size;
+				e.checksum = p.checksum;
+			}
+		} else {
+			e.value_size = loc.value.len() as u32;
+		}
+	}
+	e
+}
+
+impl Tree {
+	/// Read-only walk over everything that can hold a value pointer, plus the
+	/// state of the value log (see module comment).
+	pub fn verif_vlog_pointers(&self) -> Result<VlogWalk> {
+		let inner = &self.core.inner;
+		let mut w = VlogWalk::default();
+		let tables: Vec<(u8, std::sync::Arc<crate::sstable::table::Table>)> = {
+			let m = inner.level_manifest.read()?;
+			w.min_oldest = m.min_oldest_vlog_file_id();
+			let mut v = Vec::new();
+			for (li, level) in m.levels.get_levels().iter().enumerate() {
+				for t in &level.tables {
+					v.push((li as u8, std::sync::Arc::clone(t)));
+				}
+			}
+			v
+		};
+		for (level, t) in &tables {
+			w.tables.push(VlogTableInfo {
+				id: t.id,
+				level: *level,
+				oldest_vlog_file_id: t.meta.properties.oldest_vlog_file_id,
+			});
+			let mut it = t.iter(None)?;
+			let mut ok = it.seek_first()?;
+			while ok && it.valid() {
+				let ikey = it.key().to_owned();
+				let raw = it.value_encoded()?.to_vec();
+				w.entries.push(entry_info(t.id, *level, &ikey, &raw));
+				ok = it.next()?;
+			}
+		}
+		if let Some(ref vi) = inner.versioned_index {
+			let guard = vi.read();
+			let empty: &[u8] = &[];
+			for item in guard.range(empty..)? {
+				let (k, v) = item?;
+				let ikey = InternalKey::decode(&k);
+				w.index_entries.push(entry_info(0, 0, &ikey, &v));
+			}
+		}
+		if let Some(ref vlog) = inner.vlog {
+			w.enabled = true;
+			w.active_writer_id = vlog.active_writer_id.load(Ordering::SeqCst);
+			w.next_file_id = vlog.next_file_id.load(Ordering::SeqCst);
+			w.writer_offset = vlog.writer.read().as_ref().map(|x| x.current_offset).unwrap_or(0);
+			w.handles = vlog.file_handles.read().keys().copied().collect();
+			w.handles.sort_unstable();
+			if let Ok(rd) = std::fs::read_dir(inner.opts.vlog_dir()) {
+				for ent in rd.flatten() {
+					let name = ent.file_name().to_string_lossy().to_string();
+					match inner.opts.extract_vlog_file_id(&name) {
+						Some(id) => {
+							w.dir_files.push((id, ent.metadata().map(|m| m.len()).unwrap_or(0)))
+						}
+						None => w.dir_other.push(name),
+					}
+				}
+			}
+			w.dir_files.sort_unstable();
+		}
+		Ok(w)
+	}
+}
